@@ -36,10 +36,11 @@ impl<'de, R: ReadSlice<'de>> Deserializer<'de> for DatumDeserializer<'_, '_, R> 
 			}
 			SchemaNode::Bytes => read_length_delimited(self.state, BytesVisitor(visitor)),
 			SchemaNode::String => read_length_delimited(self.state, StringVisitor(visitor)),
-			SchemaNode::Array(elements_schema) => visitor.visit_seq(ArraySeqAccess {
+			SchemaNode::Array(elements_schema) => ArraySeqAccess {
 				elements_schema: elements_schema.as_ref(),
 				block_reader: BlockReader::new(self.state, false, self.allowed_depth.dec()?),
-			}),
+			}
+			.visit(visitor),
 			SchemaNode::Map(elements_schema) => visitor.visit_map(MapMapAccess {
 				elements_schema: elements_schema.as_ref(),
 				block_reader: BlockReader::new(self.state, false, self.allowed_depth.dec()?),
@@ -294,10 +295,11 @@ impl<'de, R: ReadSlice<'de>> Deserializer<'de> for DatumDeserializer<'_, '_, R> 
 		// TODO deserialize map as [(key,value)]
 		// Until then, this can be worked around using the `serde-tuple-vec-map` crate
 		match *self.schema_node {
-			SchemaNode::Array(elements_schema) => visitor.visit_seq(ArraySeqAccess {
+			SchemaNode::Array(elements_schema) => ArraySeqAccess {
 				elements_schema: elements_schema.as_ref(),
 				block_reader: BlockReader::new(self.state, false, self.allowed_depth.dec()?),
-			}),
+			}
+			.visit(visitor),
 			SchemaNode::Duration => visitor.visit_seq(DurationMapAndSeqAccess {
 				duration_buf: &self.state.read_const_size_buf::<12>()?,
 			}),
@@ -311,10 +313,11 @@ impl<'de, R: ReadSlice<'de>> Deserializer<'de> for DatumDeserializer<'_, '_, R> 
 	{
 		// Allows deserializing Duration as (u32, u32, u32)
 		match *self.schema_node {
-			SchemaNode::Array(elements_schema) => visitor.visit_seq(ArraySeqAccess {
+			SchemaNode::Array(elements_schema) => ArraySeqAccess {
 				elements_schema: elements_schema.as_ref(),
 				block_reader: BlockReader::new(self.state, false, self.allowed_depth.dec()?),
-			}),
+			}
+			.visit(visitor),
 			SchemaNode::Duration if len == 3 => visitor.visit_seq(DurationMapAndSeqAccess {
 				duration_buf: &self.state.read_const_size_buf::<12>()?,
 			}),
@@ -436,10 +439,11 @@ impl<'de, R: ReadSlice<'de>> Deserializer<'de> for DatumDeserializer<'_, '_, R> 
 
 		match *self.schema_node {
 			SchemaNode::String => read_length_delimited(self.state, BytesVisitor(visitor)),
-			SchemaNode::Array(elements_schema) => visitor.visit_seq(ArraySeqAccess {
+			SchemaNode::Array(elements_schema) => ArraySeqAccess {
 				elements_schema: elements_schema.as_ref(),
 				block_reader: BlockReader::new(self.state, true, self.allowed_depth.dec()?),
-			}),
+			}
+			.visit(visitor),
 			SchemaNode::Map(elements_schema) => visitor.visit_map(MapMapAccess {
 				elements_schema: elements_schema.as_ref(),
 				block_reader: BlockReader::new(self.state, true, self.allowed_depth.dec()?),
